@@ -100,7 +100,7 @@ fn render_callback(leaf: usize, enum_name: &str, ret: u8, salt: u32, bump: u8, f
 
 /// Rust source of the module of one subject.
 pub fn render_module(idx: usize, sd: &SubjectDef) -> String {
-    if sd.family == "callbacks" {
+    if sd.family == "callbacks" || sd.family == "stress-cb" {
         return render_callback_module(idx, sd);
     }
     let mut s = String::new();
@@ -301,4 +301,67 @@ pub fn bump_bytes(rem: &[u8], k: u8, is_str: bool) -> usize {
         n = (n + w).min(rem.len());
     }
     n
+}
+
+/// Fixed stress family (C06 stack clause, C20 adversarial shapes): hand-picked definitions.
+pub fn stress_defs() -> Vec<SubjectDef> {
+    use crate::spec::{CbSpec, DefSpec, LitSpec, PatSpec};
+    let rx = |t: &str| {
+        let mut p = PatSpec::regex(LitSpec::str(t));
+        p.allow_greedy = true;
+        p
+    };
+    let tok = |t: &str| PatSpec::token(LitSpec::str(t));
+    let mut out = Vec::new();
+    // 0: pattern skips, giant self-loop token, giant 2-cycle token, short tokens
+    out.push(SubjectDef {
+        family: "stress".into(),
+        def: DefSpec { utf8: true, subpatterns: vec![], skips: vec![rx("[ \\n]")], variants: vec![vec![rx("a+")], vec![rx("x(yx)*z")], vec![tok("b")], vec![tok(";")]] },
+        skip_log: false,
+        has_value: vec![],
+        error_cb: false,
+    });
+    // 1: adversarial nested / overlapping repetitions
+    out.push(SubjectDef {
+        family: "stress".into(),
+        def: DefSpec {
+            utf8: true,
+            subpatterns: vec![],
+            skips: vec![],
+            variants: vec![vec![rx("(a*)*b")], vec![rx("(c|cc)+d")], vec![rx("(e|ef)(g|fgh)*i")], vec![rx("k(.*l)?")], vec![rx("(m+n?)+o")], vec![rx("[p-r]{1,3}(?:pq|qr){2,}s")]],
+        },
+        skip_log: false,
+        has_value: vec![],
+        error_cb: false,
+    });
+    // 2: byte mode, overlapping keyword / identifier sets and a long literal
+    out.push(SubjectDef {
+        family: "stress".into(),
+        def: DefSpec {
+            utf8: false,
+            subpatterns: vec![],
+            skips: vec![rx(" +")],
+            variants: vec![vec![rx("[a-z_][a-z0-9_]*")], vec![tok("abcdefghijklmnopqrstuvwxyz0123456789")], vec![tok("abcdefghijklmnop")], vec![rx("[0-9]+(\\.[0-9]+)?")], vec![rx("\"([^\"\\\\]|\\\\.)*\"")]],
+        },
+        skip_log: false,
+        has_value: vec![],
+        error_cb: false,
+    });
+    // 3: callbacks family shape: skipping through callbacks (Skip and Filter::Skip) and a skip pattern with a callback
+    let mut sk = rx("-");
+    sk.callback = Some(CbSpec { ret: 16, salt: 1, bump: 0, form: 2 });
+    let mut c1 = rx(" ");
+    c1.callback = Some(CbSpec { ret: 3, salt: 2, bump: 0, form: 0 });
+    let mut c2 = rx("\\n");
+    c2.callback = Some(CbSpec { ret: 5, salt: 3, bump: 0, form: 1 });
+    let mut c3 = rx("w+");
+    c3.callback = Some(CbSpec { ret: 11, salt: 4, bump: 0, form: 3 });
+    out.push(SubjectDef {
+        family: "stress-cb".into(),
+        def: DefSpec { utf8: true, subpatterns: vec![], skips: vec![sk], variants: vec![vec![c1], vec![c2], vec![c3], vec![tok("b")]] },
+        skip_log: false,
+        has_value: vec![false, false, false, true, false],
+        error_cb: false,
+    });
+    out
 }
